@@ -6,6 +6,7 @@
 //	runprop fault   -work D -scenario S -seed N -kind sql|rpc|both -points K|all [-pairs P] [...]
 //	runprop restart -work D -scenario S -seed N -at all|h1,h2,..
 //	runprop apiload -work D -scenario S -seed N -workers W [-runs R] [-racebin B]
+//	runprop history -work D -scenario S -seed N [-limit L] [-combos K] [-fullkeys K]
 //	runprop scenario -scenario S -seed N          (prints a description of the chain)
 //
 // stdout: one JSON object per line, the last one is {"cmd":..,"summary":{..}}.
@@ -67,6 +68,10 @@ func main() {
 	fs.StringVar(&a.RaceBin, "racebin", "", "apiload: a runprop binary built with -race; adds one loaded run under the race detector")
 	fs.StringVar(&a.Mix, "mix", "all", "apiload: all (every read method), norich (without get-rich-list/get-global-rich-list), status (get-sync-status only)")
 	fs.IntVar(&a.PauseUs, "pause", 0, "apiload: microseconds a worker sleeps between calls")
+	hi := &drv.HistoryOptions{}
+	fs.IntVar(&hi.Limit, "limit", 50, "history: the page size get-transactions promises")
+	fs.IntVar(&hi.Combos, "combos", 4, "history: seed-chosen filter combinations per key")
+	fs.IntVar(&hi.FullKeys, "fullkeys", 30, "history: keys per kind that get every filter combination")
 	fs.Parse(os.Args[2:])
 
 	if cmd == "scenario" {
@@ -107,12 +112,14 @@ func main() {
 		os.Exit(drv.CmdRestart(c, *at, *multi, *perHeight))
 	case "apiload":
 		os.Exit(drv.CmdAPILoad(c, a))
+	case "history":
+		os.Exit(drv.CmdHistory(c, hi))
 	}
 	usage()
 }
 
 func usage() {
-	fmt.Fprintln(os.Stderr, "usage: runprop det|crash|fault|restart|apiload|scenario -work <dir> -scenario <name> -seed <n> [flags]")
+	fmt.Fprintln(os.Stderr, "usage: runprop det|crash|fault|restart|apiload|history|scenario -work <dir> -scenario <name> -seed <n> [flags]")
 	os.Exit(2)
 }
 
